@@ -1,31 +1,15 @@
 (* C09: text field + character decoding together: what tf.to_model appends for a text field under the CCT's decoder
-   is what the specification prescribes with the standard's code table, outside the two recorded findings. *)
+   is what the specification prescribes with the standard's code table, for every byte string (the two findings that
+   used to qualify this, blank-row-dropped and iso6937-a4, were repaired). *)
 From TT Require Import Base.Prelude Model.Iso6937 Model.StlTf Model.StlTriggers Spec.Ebu3264Spec.
 From TT Require Import Proofs.C09.Tables Proofs.C09.TextField.
 
-Lemma existsb_a4_false l : Forall (fun b => b <> 164) l -> trigger_a4 l = false.
-Proof.
-  induction 1 as [|b l Hb _ IH]; [reflexivity|]. cbn [trigger_a4 existsb].
-  destruct (b =? 164) eqn:E; [apply Z.eqb_eq in E; contradiction | exact IH].
-Qed.
-Lemma a4_false_forall l : trigger_a4 l = false -> Forall (fun b => b <> 164) l.
-Proof.
-  induction l as [|b l IH]; [constructor|]. cbn [trigger_a4 existsb]. intros H. apply orb_false_iff in H as [H1 H2].
-  constructor; [intros ->; discriminate | apply IH, H2].
-Qed.
-
-Lemma text_partial cct tele bs : Forall is_byte bs -> trigger_blank_row bs = false -> trigger_a4_cct cct bs = false ->
+Lemma text_full cct tele bs : Forall is_byte bs ->
   map piece_of_leaf (tf_model (decoder_of_cct cct) tele bs) = tf_spec (decoder_spec cct) tele bs.
 Proof.
-  intros Hb Hbr Ha. rewrite (tf_refines _ _ _ Hbr).
-  apply (tf_spec_agree (fun b => is_byte b /\ (latin_cct cct = true -> b <> 164))).
-  - intros l Hl. apply decoder_agrees.
-    + eapply Forall_impl; [|exact Hl]. intros b [H _]; exact H.
-    + unfold trigger_a4_cct. destruct (latin_cct cct) eqn:El; [|reflexivity]. cbn [andb].
-      apply existsb_a4_false. eapply Forall_impl; [|exact Hl]. intros b [_ H]; exact (H eq_refl).
-  - split; [unfold is_byte; lia | intros _; discriminate].
-  - unfold trigger_a4_cct in Ha. destruct (latin_cct cct) eqn:El.
-    + cbn [andb] in Ha. apply a4_false_forall in Ha.
-      rewrite Forall_forall in *. intros b Hin. split; [apply Hb, Hin | intros _; apply Ha, Hin].
-    + eapply Forall_impl; [|exact Hb]. intros b H. split; [exact H | discriminate].
+  intros Hb. rewrite tf_refines.
+  apply (tf_spec_agree is_byte).
+  - intros l Hl. apply decoder_agrees, Hl.
+  - unfold is_byte; lia.
+  - exact Hb.
 Qed.
